@@ -60,6 +60,30 @@ class K:
         self.check(fn, clause or 'returns %s' % (show(want)[:60] if not callable(want) else 'the expected term'), okv, show(r.ret)[:80] if r.ret is not None else '', b.get('span'))
 
 
+def check_effect(ctx, config, rule, prefixes):
+    """Every `fn(&mut self, ..)` without a result in the given source files does *something* (a call, a store, a copy, a
+    drop): std's counterpart of each of them has an effect, so a body that has none (its only statement lost) cannot
+    behave like it.  The positive side (what the effect must be) is the business of the clause of that method, where one
+    exists; this inventory has no gaps."""
+    db = ctx.db(config)
+    n = 0
+    for b in db.fn_bodies():
+        m = b['meta']
+        sp = b.get('span') or ''
+        if b['kind'] == 'closure' or not any(sp.startswith(p_) for p_ in prefixes):
+            continue
+        ins = m.get('inputs') or []
+        if not ins or not ins[0].lstrip().startswith('&mut') or (m.get('output') or '()') != '()':
+            continue
+        I, r = arena.run_fn(ctx, b['id'], config)
+        n += 1
+        if any(e.kind in ('call', 'store', 'copy', 'drop', 'usercall', 'drop_in_place') for e in r.events):
+            ctx.ok(rule, '%s has an effect' % arena.short(b['id']), 'event inventory of the body')
+        else:
+            ctx.violation(rule, arena.short(b['id']), 'no-effect', '%s takes &mut self, returns nothing and does nothing: it cannot behave like its std counterpart' % arena.short(b['id']), b.get('span'))
+    ctx.floor(rule + '.effect', n, 5, 'mutating methods without a result')
+
+
 def check_vec(ctx, config, rule):
     k = K(ctx, config, rule)
     db = k.db
@@ -256,6 +280,12 @@ def check_vec(ctx, config, rule):
             and any(f[0] == 'ne' and set(f[1:]) == {CAPL, P2} for f in ra[0].state.facts)
         k.check('RawVec::shrink_to_fit', 'otherwise realloc(ptr, Layout(cap * size), amount * size) exactly when cap != amount', okr)
         capst = [e for e in sts if e.lv == fld(SELF, R_ + '.cap')]
+        # zero-sized elements own no buffer: the panic / release / realloc arms are reached only for size_of::<T>() != 0 and the
+        # early `cap := amount; return` exactly for size_of::<T>() == 0
+        szfact = lambda e, op: any(f[0] == op and len(f) == 3 and C(0) in f[1:] and sz in f[1:] for f in e.state.facts)
+        arms = pan + db_ + ra
+        okg = bool(arms) and all(szfact(e, 'ne') for e in arms) and any(szfact(e, 'eq') for e in capst) and all(szfact(e, 'eq') or szfact(e, 'ne') for e in capst)
+        k.check('RawVec::shrink_to_fit', 'the buffer arms run only for size_of::<T>() != 0; zero-sized elements just record cap := amount', okg)
         k.check('RawVec::shrink_to_fit', 'cap := amount', bool(capst) and all(e.val == P2 or (is_c(e.val) and (('eq', e.val, P2) in e.state.facts or ('eq', P2, e.val) in e.state.facts)) for e in capst))
     b = method(db, 'raw_vec::RawVec', 'dealloc_buffer')
     if b:
@@ -344,6 +374,32 @@ def check_string(ctx, config, rule):
         okv = ret is not None and ret[0] == 'agg' and field_of(ret, 'string') == SELF and len(ix) == 1 and field_of(ix[0].args[1], 'start') == field_of(ret, 'start') and field_of(ix[0].args[1], 'end') == field_of(ret, 'end') \
             and len(ch) == 1 and ch[0].args[0] == ix[0].ret and field_of(ret, 'iter') == ch[0].ret
         k.check('String::drain', 'Drain { string, start, end, iter: self[start..end].chars() } (the slicing is the boundary / range check)', okv, '', b.get('span'))
+        # the bounds are std's: start = Included(n) -> n, Excluded(n) -> n + 1, Unbounded -> 0; end = Included(n) -> n + 1, Excluded(n) -> n, Unbounded -> len
+        def bound_alts(t, which):
+            out = set()
+            if t is None:
+                return out
+            for x in arena.phi_leaves(t):
+                plus = 0
+                if x[0] == 'app' and x[1] == 'add' and len(x) == 4 and is_c(x[3]):
+                    plus, x = x[3][1], x[2]
+                elif x[0] == 'app' and x[1] == 'payload' and x[2][0] == 'app' and x[2][1] == 'checked_add' and is_c(x[2][3]):
+                    plus, x = x[2][3][1], x[2][2]
+                if x[0] == 'load' and x[1][0] == 'deref' and x[1][1][:2] == ('app', 'vproj') and x[1][1][2][0] == 'call' and x[1][1][2][1].endswith('::' + which):
+                    out.add((x[1][1][3], plus))
+                elif is_c(x):
+                    out.add(('const', x[1]))
+                elif x == LEN or (x[0] == 'call' and x[1].endswith('::len')) or (x[0] == 'load' and x[1][0] == 'fld' and x[1][2].endswith('Vec.len')):
+                    out.add(('len', 0))
+                else:
+                    out.add(('?', show(x)[:40]))
+            return out
+        if ret is not None and ret[0] == 'agg':
+            sa, ea = bound_alts(field_of(ret, 'start'), 'start_bound'), bound_alts(field_of(ret, 'end'), 'end_bound')
+            unknown = any(a == '?' for a, _ in sa | ea)
+            okb = sa == {('Included', 0), ('Excluded', 1), ('const', 0)} and ea == {('Included', 1), ('Excluded', 0), ('len', 0)}
+            if okb or not unknown:      # an unrecognised spelling of a bound is not judged
+                k.check('String::drain', 'start = Included(n) => n, Excluded(n) => n + 1, Unbounded => 0; end = Included(n) => n + 1, Excluded(n) => n, Unbounded => len', okb, '%s / %s' % (sorted(sa), sorted(ea)))
     b = method(db, 'string::Drain', 'drop', 'Drop')
     if b:
         I, r = k.run(b)
